@@ -231,7 +231,7 @@ class HeaderElement(with_metaclass(HeaderType)):
 		if b'=?' in value and b'"=?' not in value and b'==?' not in value:
 			# FIXME: must not parse encoded_words in unquoted ('Content-Type', 'Content-Disposition') header params
 			try:
-				return u''.join(atom.decode(cls._sanitize_encoding(charset or 'ISO8859-1')) for atom, charset in decode_header(value.decode('ISO8859-1'))), 'UTF-8'
+				return u''.join(atom.decode(cls._sanitize_encoding(charset or 'ISO8859-1')) if isinstance(atom, bytes) else atom for atom, charset in decode_header(value.decode('ISO8859-1'))), 'UTF-8'
 			except (UnicodeDecodeError, HeaderParseError) as exc:
 				raise InvalidHeader(str(exc))
 		try:
